@@ -316,6 +316,12 @@ func resolvePath(basePath *url.URL, componentPath *url.URL) *url.URL {
 		}
 		return join(basePath, componentPath)
 	}
+	if basePath != nil && componentPath.Scheme == "" && componentPath.Host == "" && componentPath.Path == "" && componentPath.RawQuery != "" {
+		// a reference that is a query only ("?rev=2#/..."): the referring document's location with that query (RFC 3986, 5.2.2)
+		sameDoc := *basePath
+		sameDoc.RawQuery, sameDoc.ForceQuery, sameDoc.Fragment = componentPath.RawQuery, componentPath.ForceQuery, componentPath.Fragment
+		return &sameDoc
+	}
 	return componentPath
 }
 
